@@ -184,6 +184,25 @@ func applyOps(r *mon.Run, adb *account.AccountDB, ops []Op) {
 			adb.AddBalance(o.Addr, o.Amt)
 		case "subbal":
 			adb.SubBalance(o.Addr, o.Amt)
+		case "setstate":
+			adb.SetState(o.Addr, common.BytesToHash(o.Key), common.BytesToHash(o.Val))
+		case "iroot":
+			switch o.N {
+			case 0:
+				adb.IntermediateRoot(true)
+			case 1:
+				adb.IntermediateRoot(false)
+			case 2:
+				adb.Finalise(false)
+			default:
+				adb.Finalise(true)
+			}
+			snaps = nil // the journal is gone
+			r.Count("intermediate_roots_midblock", 1)
+		case "mark":
+			r.Count("restore_patterns", 1)
+			r.Count("restore_pattern_"+string(o.Val), 1)
+			continue
 		case "snap":
 			snaps = append(snaps, adb.Snapshot())
 		case "revert":
@@ -687,6 +706,7 @@ func runSequence(r *mon.Run, variant string, idx int, inner db.Database, onOK fu
 	s.crash = s.replica
 	s.resetMemos()
 	s.g = newGen(s.rng, fmt.Sprintf("%d|%s|%d", r.Seed, variant, idx))
+	s.g.keepEmpty = variant == "unbound"
 	r.Count("sequences", 1)
 
 	if variant != "unbound" {
@@ -954,7 +974,7 @@ func cleanup(d string) {
 }
 
 const rule = "seeded sequences of 3-12 blocks (1-200 account mutations each: creates, nonce bumps, storage writes/overwrites/deletes with 1-40 byte keys incl. prefix-related keys and 1-200 byte values, " +
-	"code deploys 1 B-24 KB shared between accounts, self-destructs, balance set/add/sub through the bound token contract, storage made equal to another account's / to an older root's, snapshot+revert, forks from older roots, " +
+	"code deploys 1 B-24 KB shared between accounts, self-destructs, balance set/add/sub through the bound token contract, storage made equal to another account's / to an older root's, snapshot+revert, IntermediateRoot/Finalise at random points inside a block with write patterns that return to earlier values (A-B-A, A-nil-A, nil-A-nil, A-B-C-A over 1-3 slots via SetData/RemoveData/SetState; balance, nonce, code) across 1-3 intermediate roots, forks from older roots, " +
 	"orphan AccountDB commits, injected Batch.Write errors with retry (fresh state / same state object) or abandon, contract code equal to the encoded root node of a storage trie of the same block; >= 1 block per sequence writes 300-700 KB so its commit spans several 100 KB batches) executed through the real AccountDB/NodeDatabase over a recording db.Database; " +
 	"every prefix of every commit's physical write units is a crash point (exhaustive over the recorded sequence). Non-trivial: crash points of commits with >= 2 physical units, distinct by (variant, sequence, commit, prefix length)"
 
@@ -973,7 +993,7 @@ func finish(r *mon.Run) {
 		},
 		MustObserve: []string{"sequences", "commits_reported_ok", "physical_units", "crash_points", "multi_batch_commits", "roots_walked_real", "roots_walked_indep",
 			"storage_tries_walked", "code_blobs_checked", "durability_checks", "accessor_reads", "leaves_iterated", "state_iterator_entries",
-			"injected_write_errors", "retried_commits_same_state_object", "fork_blocks", "orphan_account_commits", "ldb_kill_runs", "ldb_roots_present_after_restart"},
+			"injected_write_errors", "retried_commits_same_state_object", "intermediate_roots_midblock", "restore_patterns", "fork_blocks", "orphan_account_commits", "ldb_kill_runs", "ldb_roots_present_after_restart"},
 	})
 }
 
